@@ -110,6 +110,9 @@ def draw_plan(rng: random.Random, prop: str, tier: str = "quick", methods=None, 
             ops.append({"op": "sim", "mgr": "A", "method": "HYBRID", "H": hh})
         elif k == "poke":
             ops.append({"op": "poke", "mgr": "A", "setter": rng.choice(gen.SETTERS + ["borehole", "borehole", "design"])})
+            if prop in ("C12", "C19", "C13") and rng.random() < 0.6:
+                # ... and the previous case is saved right afterwards
+                ops.append({"op": "report", "mgr": "A", "dir": f"r{len(ops)}", "suffix": "", "rewrite": rng.random() < 0.3})
         elif k == "nominal":
             ops.append({"op": "nominal", "mgr": "A", "height": gen.r3(rng.uniform(20.0, 400.0))})
         elif k == "tick":
